@@ -311,6 +311,24 @@ class Extractor(Translator):
         info = self.ast.finfo(fid)
         q = info.get("qname", "")
         stub = self.opts.get("virtual_models", {}).get(q)
+        rx = self.opts.get("virtual_resolve", {}).get(q)
+        if stub is None and rx is not None:
+            # the unit states which final overrider the object has at this call (a harness-level fact, e.g. 'the task set the
+            # scheduler was handed is the LocalTask schedule_internal allocated'): the unique instantiated definition matching rx
+            cands = [fid2 for fid2, d in self.ast.D.items() if d.get("body") and d.get("def") == fid2 and re.search(rx, d.get("qname", ""))]
+            if len(cands) != 1:
+                raise ExtractionBreak("function %s: virtual call to '%s': %d definitions match /%s/" % (self.cur.cname, q, len(cands), rx))
+            self.rule("virtual-call->stated-final-overrider")
+            target = cands[0]
+            cname = self.request(target)
+            self.cur.calls[cname] = True
+            prec = self.ast.D[target].get("parent")
+            rname = self.ast.R[prec]["name"]
+            objp = self.rv(objn) if me.get("isArrow") else addr(self.lv(objn))
+            call = X("call", cname, [X("cast", self.record_cname(rname) + " *", objp)] + self.call_args(target, args))
+            rets, _ = fn_ret_type(info["type"])
+            call.ty = self.lower(parse_type(rets))
+            return call
         if stub is None:
             raise ExtractionBreak("function %s: virtual call to '%s' (no interface model)" % (self.cur.cname, q))
         self.rule("virtual-call->interface-stub")
